@@ -56,7 +56,7 @@ def observeHandsOver (udp : Bool) : Bool :=
 
 /-- … before the select on the pong (in `Client.Ping`, or in the `Conn.Ping` that wraps it) -/
 def pingHandsOver (udp : Bool) : Bool :=
-  handed udp "Conn.Ping" "Client.Ping" || preceded "Client.Ping" "select"
+  if pingOwnWait udp then pingOwnPreceded udp else handed udp "Conn.Ping" "Client.Ping" || preceded "Client.Ping" "select"
 
 /-! ### F11 -/
 
@@ -133,9 +133,12 @@ theorem f12_stall :
 /-! ### Ping -/
 
 theorem ping_fixed_wf (udp : Bool) (h : pingHandsOver udp = true) : waitsPreceded (pingProg udp) = true := by
-  simp only [pingHandsOver, Bool.or_eq_true] at h
-  cases h1 : handed udp "Conn.Ping" "Client.Ping" <;> cases h2 : preceded "Client.Ping" "select" <;>
-  simp_all [pingProg, rep, waitsPreceded]
+  cases h0 : pingOwnWait udp
+  · simp only [pingHandsOver, h0, Bool.or_eq_true] at h
+    cases h1 : handed udp "Conn.Ping" "Client.Ping" <;> cases h2 : preceded "Client.Ping" "select" <;>
+    simp_all [pingProg, rep, waitsPreceded]
+  · simp only [pingHandsOver, h0, if_true] at h
+    simp_all [pingProg, rep, waitsPreceded]
 
 def pingInbox : List Msg := [⟨1, .req (pingProg false)⟩, ⟨2, .req []⟩, ⟨101, .pong⟩]
 
